@@ -310,6 +310,7 @@ def run(ctx):
     jobs = []
     if ctx.thorough:
         sim = uniq(rs["gen5"].printed())
+        sim = ctx.rng.sample(sim, min(len(sim), 2000))
         ctx.extra["simulated_len5"] = len(sim)
         for n, b in enumerate(behs[2] + behs[3] + behs[4] + sim):
             jobs.append({"beh": b, "mode": MODES[n % 3] if len(b["h"]) > 3 else "fn"})
